@@ -144,7 +144,12 @@ Definition when (b : bool) (m : M unit) : M unit := if b then m else ret tt.
    the error is raised; false = the site calls mju_malloc, which raises the error itself (the
    caller's cleanup code after the NULL test is then unreachable unless the handler returns).
    v_lstructs: mj_loadModelBuffer deletes the model on "ran out of data while reading structs". *)
-Record variant := { v_mbuf : bool; v_dbuf : bool; v_darena : bool; v_lstructs : bool }.
+Record variant := { v_mbuf : bool; v_dbuf : bool; v_darena : bool; v_lstructs : bool; v_dnull : bool;
+                    v_npl : bool }.
+(* v_dnull: the arena-failure cleanup of mj_makeRawData resets d->buffer to NULL after freeing it
+   (matters only when the mjData struct belongs to the caller: in-place mj_makeRawData);
+   v_npl: d->nplugin counts only live plugin instances: in-place mj_makeRawData clears it right after
+   freeDataBuffers and mj_initPlugin raises it instance by instance *)
 
 (* allocation sites *)
 Definition S_MODEL := 0.    (* mjModel struct *)
@@ -289,7 +294,11 @@ Definition mj_saveModel (mode : hmode) : M unit :=
 
 (* ------------------------------------------------------------------ mjData *)
 Record dobj := { d_struct : option nat; d_buf : option nat; d_arena : option nat;
-                 d_plug : list (option nat) }.
+                 d_plug : list (option nat);   (* d->plugin_data[0 .. d->nplugin) *)
+                 d_ptrs : option nat }.        (* the block that d->plugin, d->plugin_data, ... point into
+                                                  (set by mj_setPtrData; normally the buffer) *)
+(* a pointer value that no allocation ever returned (uninitialised memory) *)
+Definition JUNK := 4095.
 Definition own_d (d : option dobj) : list nat :=
   match d with
   | Some x => optl (d_struct x) ++ optl (d_buf x) ++ optl (d_arena x) ++ flat_map optl (d_plug x)
@@ -307,7 +316,7 @@ Definition mj_makeRawData (v : variant) (mode : hmode) : M (option dobj) :=
   when (match a with None => true | _ => false end)
        (mju_free b ;;; mju_free d ;;; error mode E_SITE) ;;;
   use d ;;;                                                (* mj_setPtrData *)
-  ret (Some {| d_struct := d; d_buf := b; d_arena := a; d_plug := [] |}).
+  ret (Some {| d_struct := d; d_buf := b; d_arena := a; d_plug := []; d_ptrs := b |}).
 
 (* mj_initPlugin with np instances of the harness plugin: init allocates one block through
    mju_malloc, stores it in d->plugin_data[i] and returns -1 when it got NULL *)
@@ -349,7 +358,8 @@ Definition mj_makeData (v : variant) (mode : hmode) (np : nat) : M (option dobj)
   | None => ret None
   | Some x =>
       pl <- init_plugins mode x np ;;
-      let x' := {| d_struct := d_struct x; d_buf := d_buf x; d_arena := d_arena x; d_plug := pl |} in
+      let x' := {| d_struct := d_struct x; d_buf := d_buf x; d_arena := d_arena x; d_plug := pl;
+                   d_ptrs := d_ptrs x |} in
       resetData mode x' ;;; ret (Some x')
   end.
 
@@ -364,7 +374,7 @@ Definition mj_copyData (v : variant) (mode : hmode) (np : nat) (dest : option do
             | Some x =>
                 pl <- init_plugins mode x np ;;
                 ret (Some {| d_struct := d_struct x; d_buf := d_buf x; d_arena := d_arena x;
-                             d_plug := pl |})
+                             d_plug := pl; d_ptrs := d_ptrs x |})
             end
         end) ;;
   match d with
@@ -392,7 +402,7 @@ Definition mj_deleteData (d : option dobj) : M unit :=
       | None => ret tt
       | Some _ =>
           use (d_struct x) ;;;
-          when (match d_plug x with [] => false | _ => true end) (use (d_buf x)) ;;;
+          when (match d_plug x with [] => false | _ => true end) (use (d_ptrs x)) ;;;   (* d->plugin[i], d->plugin_data[i] *)
           free_all (d_plug x) ;;;
           mju_free (d_buf x) ;;; mju_free (d_arena x) ;;; mju_free (d_struct x)
       end
@@ -404,25 +414,152 @@ Definition mj_deleteData (d : option dobj) : M unit :=
    TryCompile: mj_makeModel(&m), mj_makeRawData(&d) + mj_resetData (no plugins yet),
    mj_deleteData(d), d = mj_makeData(m), mj_step, mj_deleteData(d).  mj_setConst, LengthRange and
    mj_step allocate from the arena of d only. *)
-Definition compile (v : variant) (np : nat) : M (option mobj) :=
-  let handler (model : option mobj) (data : option dobj) : M (option mobj) :=
-      mj_deleteModel model ;;; mj_deleteData data ;;; ret None in
-  r1 <- try (mj_makeModel v HJump None MR_none) ;;
-  match r1 with
-  | Val model =>
-      r2 <- try (mj_makeRawData v HJump) ;;
-      match r2 with
-      | Val d1 =>
-          mj_deleteData d1 ;;;
-          r3 <- try (mj_makeData v HJump np) ;;
-          match r3 with
-          | Val d2 => mj_deleteData d2 ;;; ret model
-          | _ => handler model None      (* d = mj_makeData(m) was never assigned *)
-          end
-      | _ => handler model None          (* *dest of mj_makeRawData was never assigned *)
-      end
-  | _ => handler None None               (* *dest of mj_makeModel was never assigned *)
+(* errors raised while the compiler's own (thread-local) handler is installed never reach the
+   global handler: they are tagged by adding 100 to their class *)
+Fixpoint retag {A : Type} (p : prog A) : prog A :=
+  match p with
+  | Ret a => Ret a
+  | Emit (Error c) k => Emit (Error (100 + c)) (retag k)
+  | Emit e k => Emit e (retag k)
+  | Malloc s k => Malloc s (fun x => retag (k x))
   end.
+
+Definition compile_handler (model : option mobj) (data : option dobj) : M (option mobj) :=
+  mj_deleteModel model ;;; mj_deleteData data ;;; ret None.
+
+(* TryCompile after mj_makeModel succeeded *)
+Definition compile_tail (v : variant) (np : nat) (model : option mobj) : M (option mobj) :=
+  r2 <- try (mj_makeRawData v HJump) ;;
+  match r2 with
+  | Val d1 =>
+      mj_deleteData d1 ;;;
+      r3 <- try (mj_makeData v HJump np) ;;
+      match r3 with
+      | Val d2 => mj_deleteData d2 ;;; ret model
+      | _ => compile_handler model None      (* d = mj_makeData(m) was never assigned *)
+      end
+  | _ => compile_handler model None          (* *dest of mj_makeRawData was never assigned *)
+  end.
+
+Definition compile (v : variant) (np : nat) : M (option mobj) :=
+  retag (r1 <- try (mj_makeModel v HJump None MR_none) ;;
+         match r1 with
+         | Val model => compile_tail v np model
+         | _ => compile_handler None None     (* *dest of mj_makeModel was never assigned *)
+         end).
+
+(* ------------------------------------------------------------------ in-place construction *)
+(* mj_makeModel / mj_makeRawData on a struct that belongs to the caller (dest points to a non-NULL pointer), as reached
+   from mj_recompile.  The struct is never freed here; what matters is the state it is left in when
+   the error is raised, because the caller (or the compiler's catch block) deletes it afterwards.
+   These are written in state-passing style: the result is the control outcome together with the
+   state of the caller's object at that point. *)
+Definition outcome (mode : hmode) : res unit :=
+  match mode with HExit => Exited | HJump => Raised | HReturn => Val tt end.
+Fixpoint emits {A : Type} (l : list event) (k : prog A) : prog A :=
+  match l with [] => k | e :: r => Emit e (emits r k) end.
+Definition freeE (p : option nat) : list event := match p with Some id => [Free id] | None => [] end.
+
+Definition mj_makeModel_inplace (v : variant) (mode : hmode) (mo : mobj) : prog (res unit * mobj) :=
+  let cleared := {| m_struct := m_struct mo; m_buf := None |} in
+  emits ([Use (m_struct mo)] ++ freeE (m_buf mo) ++ [Use (m_struct mo)])   (* freeModelBuffers; memset(m, 0) *)
+    (Malloc S_MBUF (fun b =>
+       match b with
+       | None => Emit (Error (if v_mbuf v then E_SITE else E_NOMEM)) (Ret (outcome mode, cleared))
+       | Some _ => emits [Use (m_struct mo); Use b]
+                         (Ret (Val tt, {| m_struct := m_struct mo; m_buf := b |}))
+       end)).
+
+Definition mj_makeRawData_inplace (v : variant) (mode : hmode) (d : dobj) : prog (res unit * dobj) :=
+  let hasplug := match d_plug d with [] => false | _ => true end in
+  (* freeDataBuffers destroyed the plugin instances (the harness plugin frees its block and zeroes
+     the slot) and freed buffer and arena; d->buffer = d->arena = NULL; but d->nplugin keeps its
+     value and d->plugin / d->plugin_data still point into the freed buffer *)
+  let stale (b : option nat) :=
+      {| d_struct := d_struct d; d_buf := b; d_arena := None;
+         d_plug := if v_npl v then [] else map (fun _ => None) (d_plug d); d_ptrs := d_ptrs d |} in
+  emits ([Use (d_struct d)] ++ (if hasplug then [Use (d_ptrs d)] else []) ++ flat_map freeE (d_plug d)
+         ++ freeE (d_buf d) ++ freeE (d_arena d) ++ [Use (d_struct d)])
+    (Malloc S_DBUF (fun b =>
+       match b with
+       | None => Emit (Error (if v_dbuf v then E_SITE else E_NOMEM)) (Ret (outcome mode, stale None))
+       | Some _ =>
+           Emit (Use (d_struct d))
+             (Malloc S_ARENA (fun a =>
+                match a with
+                | None =>
+                    if v_darena v
+                    then emits (freeE b ++ [Error E_SITE])     (* mju_free(d->buffer); [d->buffer = NULL;] mjERROR *)
+                               (Ret (outcome mode, stale (if v_dnull v then None else b)))
+                    else Emit (Error E_NOMEM)                   (* raised inside mju_malloc: d->buffer stays assigned *)
+                              (Ret (outcome mode, stale b))
+                | Some _ =>
+                    Emit (Use (d_struct d))                     (* mj_setPtrData; d->nplugin = 0 *)
+                      (Ret (Val tt, {| d_struct := d_struct d; d_buf := b; d_arena := a; d_plug := [];
+                                       d_ptrs := b |}))
+                end))
+       end)).
+
+(* mj_initPlugin on the caller's d: d->nplugin = m->nplugin first, then one init per instance; when
+   an init raises, the remaining slots of plugin_data are uninitialised memory *)
+Fixpoint init_plugins_st (v : variant) (mode : hmode) (d : dobj) (np : nat) : prog (res unit * list (option nat)) :=
+  match np with
+  | 0 => Ret (Val tt, [])
+  | S k =>
+      Emit (Use (d_struct d))
+        (Malloc S_PLUGIN (fun p =>
+           match p with
+           | None => Emit (Error E_NOMEM)
+                          (Ret (outcome mode, if v_npl v then [] else repeat (Some JUNK) (S k)))
+           | Some _ =>
+               Emit (Use (d_buf d))
+                 (bind (init_plugins_st v mode d k) (fun y => let '(r, l) := y in Ret (r, p :: l)))
+           end))
+  end.
+
+(* mjCModel::MakeData(m, &d) with an existing d: mj_makeRawData, mj_initPlugin, mj_resetData *)
+Definition makeData_inplace (v : variant) (mode : hmode) (np : nat) (d : dobj) : prog (res unit * dobj) :=
+  bind (mj_makeRawData_inplace v mode d) (fun x =>
+    let '(r, d1) := x in
+    match r with
+    | Val _ =>
+        bind (init_plugins_st v mode d1 np) (fun y =>
+          let '(r2, pl) := y in
+          let d2 := {| d_struct := d_struct d1; d_buf := d_buf d1; d_arena := d_arena d1; d_plug := pl;
+                       d_ptrs := d_ptrs d1 |} in
+          match r2 with
+          | Val _ => bind (resetData mode d2) (fun r3 =>
+                       Ret (match r3 with Val _ => Val tt | Raised => Raised | Exited => Exited end, d2))
+          | _ => Ret (r2, d2)
+          end)
+    | _ => Ret (r, d1)
+    end).
+
+(* mjCModel::Compile(vfs, &m) with an existing m: `model` is the caller's struct from the start *)
+Definition compile_inplace (v : variant) (np : nat) (mo : mobj) : M (option mobj) :=
+  retag (bind (mj_makeModel_inplace v HJump mo) (fun x =>
+           let '(r, mo1) := x in
+           match r with
+           | Val _ => compile_tail v np (Some mo1)
+           | Raised => compile_handler (Some mo1) None
+           | Exited => Ret Exited
+           end)).
+
+(* mj_recompile(s, vfs, m, d): the control outcome (Val RetNull is the -1 return: the library has
+   deleted m and d) and the objects the caller still owns afterwards *)
+Definition mj_recompile (v : variant) (mode : hmode) (np : nat) (mo : mobj) (d : dobj)
+  : prog (res retv * option mobj * option dobj) :=
+  bind (compile_inplace v np mo) (fun r =>
+    match r with
+    | Val None => bind (mj_deleteData (Some d)) (fun _ => Ret (Val RetNull, None, None))
+    | Val (Some m') =>
+        bind (makeData_inplace v mode np d) (fun y =>
+          let '(r2, d') := y in
+          Ret (match r2 with Val _ => Val RetOk | Raised => Raised | Exited => Exited end,
+               Some m', Some d'))
+    | Raised => Ret (Raised, Some mo, Some d)
+    | Exited => Ret (Exited, Some mo, Some d)
+    end).
 
 (* ------------------------------------------------------------------ scenarios *)
 (* Each scenario is a closed sequence of API calls as the harness driver performs them; a Return
@@ -440,7 +577,11 @@ Inductive scenario :=
 | SC_SAVE                             (* save to a file *)
 | SC_DATA (np : npl) (keep : bool)    (* make, copy (new), copy (in place), delete copy, delete unless keep *)
 | SC_STEP (np : npl)                  (* make, step, forward, inverse, reset, step, delete *)
-| SC_COMPILE (np : npl) (keep : bool). (* compile, retry once when it failed, delete unless keep *)
+| SC_COMPILE (np : npl) (keep : bool)  (* compile, retry once when it failed, delete unless keep *)
+| SC_INPLACE (np : npl)                (* make data, remake it IN PLACE (mj_makeRawData + mj_initPlugin +
+                                          mj_resetData on the same struct), delete: also after a failure *)
+| SC_RECOMPILE (np : npl).             (* compile, make data, step, edit, mj_recompile in place, then what the
+                                          caller must do: nothing after -1, delete data and model otherwise *)
 
 Definition scenario_prog (v : variant) (mode : hmode) (sc : scenario) : M (list nat) :=
   match sc with
@@ -467,6 +608,38 @@ Definition scenario_prog (v : variant) (mode : hmode) (sc : scenario) : M (list 
       m <- compile v (np_of np) ;; retp m ;;;
       m' <- (match m with Some _ => ret m | None => (r <- compile v (np_of np) ;; retp r ;;; ret r) end) ;;
       if keep then ret (own_m m') else mj_deleteModel m' ;;; ret []
+  | SC_INPLACE np =>
+      d <- mj_makeData v mode (np_of np) ;; retp d ;;;
+      match d with
+      | None => ret []
+      | Some dd =>
+          bind (makeData_inplace v mode (np_of np) dd) (fun y =>
+            let '(r, d') := y in
+            match r with
+            | Exited => Ret Exited
+            | Val _ => emit (Return RetOk) ;;; mj_deleteData (Some d') ;;; ret []
+            | Raised => mj_deleteData (Some d') ;;; ret []       (* the caller caught the error *)
+            end)
+      end
+  | SC_RECOMPILE np =>
+      m <- compile v (np_of np) ;; retp m ;;;
+      match m with
+      | None => ret []
+      | Some mo =>
+          d <- mj_makeData v mode (np_of np) ;; retp d ;;;
+          match d with
+          | None => ret (own_m m)
+          | Some dd =>
+              bind (mj_recompile v mode (np_of np) mo dd) (fun y =>
+                let '(r, m', d') := y in
+                match r with
+                | Exited => Ret Exited
+                | Val RetNull => emit (Return RetNull) ;;; ret []
+                | Val RetOk => emit (Return RetOk) ;;; mj_deleteData d' ;;; mj_deleteModel m' ;;; ret []
+                | Raised => mj_deleteData d' ;;; mj_deleteModel m' ;;; ret []   (* the caller caught the error *)
+                end)
+          end
+      end
   end.
 
 (* does the scenario reject its input without any allocation failure? *)
@@ -480,6 +653,21 @@ Definition leak_clause_holds (v : variant) (sc : scenario) : bool :=
   | SC_COMPILE _ _ => false      (* d = mj_makeData(m) is assigned only on return: with plugins a
                                     failure inside mj_initPlugin/_resetData loses the whole mjData *)
   | SC_LOAD LR_structs _ => v_lstructs v
+  | SC_INPLACE NP0 => true
+  | SC_INPLACE _ => false        (* a failed plugin allocation loses the temporaries of mj_resetData *)
+  | SC_RECOMPILE NP0 => v_mbuf v && v_dbuf v && v_darena v
+  | SC_RECOMPILE _ => false
+  | _ => true
+  end.
+
+(* is the safety clause expected to hold?  It fails for the in-place paths when the arena-failure
+   cleanup frees the buffer without clearing the pointer, and with plugin instances unless
+   d->nplugin counts only live instances (otherwise d->nplugin and the pointers into the freed
+   buffer survive freeDataBuffers, and a raising init leaves uninitialised plugin_data slots). *)
+Definition safe_clause_holds (v : variant) (sc : scenario) : bool :=
+  match sc with
+  | SC_INPLACE NP0 | SC_RECOMPILE NP0 => negb (v_darena v) || v_dnull v
+  | SC_INPLACE _ | SC_RECOMPILE _ => v_npl v && (negb (v_darena v) || v_dnull v)
   | _ => true
   end.
 
@@ -511,8 +699,10 @@ Definition verdict_empty (x : res (list nat) * trace * list bool) : bool :=
 
 Definition all_bools := [true; false].
 Definition all_variants : list variant :=
-  flat_map (fun a => flat_map (fun b => flat_map (fun c => map (fun d =>
-    {| v_mbuf := a; v_dbuf := b; v_darena := c; v_lstructs := d |}) all_bools) all_bools) all_bools) all_bools.
+  flat_map (fun a => flat_map (fun b => flat_map (fun c =>
+    flat_map (fun d => flat_map (fun e => map (fun f =>
+    {| v_mbuf := a; v_dbuf := b; v_darena := c; v_lstructs := d; v_dnull := e; v_npl := f |}) all_bools) all_bools) all_bools)
+    all_bools) all_bools) all_bools.
 Definition all_npl := [NP0; NP1; NP2].
 Definition all_lrej := [LR_none; LR_header; LR_mk_early; LR_mk_names; LR_nbuffer; LR_namesmap;
                         LR_structs; LR_array; LR_toolarge; LR_validate].
@@ -522,20 +712,21 @@ Definition all_scenarios : list scenario :=
   [SC_SAVE] ++
   flat_map (fun n => map (SC_DATA n) all_bools) all_npl ++
   map SC_STEP all_npl ++
-  flat_map (fun n => map (SC_COMPILE n) all_bools) all_npl.
+  flat_map (fun n => map (SC_COMPILE n) all_bools) all_npl ++
+  map SC_INPLACE all_npl ++ map SC_RECOMPILE all_npl.
 Definition contract_modes := [HExit; HJump].
 
 (* the finite checks the theorems reduce to *)
 Definition check_all (f : variant -> hmode -> scenario -> bool) : bool :=
   forallb (fun v => forallb (fun md => forallb (fun sc => f v md sc) all_scenarios) contract_modes) all_variants.
 Definition f_safe (v : variant) (md : hmode) (sc : scenario) : bool :=
-  forallb verdict_safe (paths (scenario_prog v md sc) 0).
+  negb (safe_clause_holds v sc) || forallb verdict_safe (paths (scenario_prog v md sc) 0).
 Definition f_iff (v : variant) (md : hmode) (sc : scenario) : bool :=
   forallb (verdict_iff (rejects sc)) (paths (scenario_prog v md sc) 0).
 Definition f_leak (v : variant) (md : hmode) (sc : scenario) : bool :=
-  negb (leak_clause_holds v sc) || forallb verdict_leak (paths (scenario_prog v md sc) 0).
+  negb (leak_clause_holds v sc) || negb (safe_clause_holds v sc) || forallb verdict_leak (paths (scenario_prog v md sc) 0).
 Definition f_dtor (v : variant) (md : hmode) (sc : scenario) : bool :=
-  negb (leak_clause_holds v sc) || keeps sc ||
+  negb (leak_clause_holds v sc) || negb (safe_clause_holds v sc) || keeps sc ||
   forallb verdict_empty (paths (scenario_prog v md sc) 0).
 Definition check_safe : bool := check_all f_safe.
 Definition check_iff : bool := check_all f_iff.
